@@ -10,11 +10,11 @@ import (
 	"strconv"
 	"sync"
 
+	"github.com/icon-project/goloop/chain/base"
 	"github.com/icon-project/goloop/common/errors"
 	"github.com/icon-project/goloop/common/log"
 	"github.com/icon-project/goloop/module"
 	"github.com/icon-project/goloop/service/contract"
-	"github.com/icon-project/goloop/chain/base"
 	"github.com/icon-project/goloop/service/state"
 	"github.com/icon-project/goloop/service/trace"
 	"github.com/icon-project/goloop/service/transaction"
@@ -84,7 +84,7 @@ func (h *vhC10Handler) Prepare(ctx contract.Context) (state.WorldContext, error)
 	h.tx.wg.Add(1)
 	return &vhC10WC{wvs: &vhC10WVS{wg: h.tx.wg}}, nil
 }
-func (h *vhC10Handler) Dispose()                                                {}
+func (h *vhC10Handler) Dispose() {}
 func (h *vhC10Handler) Execute(ctx contract.Context, wcs state.WorldSnapshot, estimate bool) (txresult.Receipt, error) {
 	t := h.tx
 	a := t.attempts
@@ -112,6 +112,7 @@ type vhC10Tx struct {
 	attempts  int
 	retryable int
 	fatal     bool
+	hookFails bool
 	last      *vhC10Receipt
 	wg        *sync.WaitGroup
 }
@@ -137,30 +138,41 @@ type vhC10Iter struct {
 }
 
 func (l *vhC10List) Iterator() module.TransactionIterator { return &vhC10Iter{l: l} }
-func (it *vhC10Iter) Has() bool                            { return it.i < len(it.l.txs) }
-func (it *vhC10Iter) Next() error                          { it.i++; return nil }
+func (it *vhC10Iter) Has() bool                           { return it.i < len(it.l.txs) }
+func (it *vhC10Iter) Next() error                         { it.i++; return nil }
 func (it *vhC10Iter) Get() (module.Transaction, int, error) {
 	return it.l.txs[it.i], it.i, nil
 }
 
 type vhC10Platform struct {
 	base.Platform
+	l *vhC10List
 }
 
+// the platform's end-of-transaction hook may fail (non-retryably) for a
+// transaction whose handler succeeded
 func (p *vhC10Platform) OnTransactionEnd(wc state.WorldContext, logger log.Logger, rct txresult.Receipt) error {
+	if r, ok := rct.(*vhC10Receipt); ok && p.l != nil {
+		tx := p.l.txs[r.tx]
+		if tx.hookFails {
+			tx.fatal = true
+			return errors.InvalidStateError.New("end-of-transaction hook failed")
+		}
+	}
 	return nil
 }
 
-
 func vhC10Setup(n int) (*transition, *vhC10Ctx, *vhC10List, []txresult.Receipt) {
 	lg := log.New()
-	t := &transition{transitionContext: &transitionContext{log: lg, plt: &vhC10Platform{}}}
+	plt := &vhC10Platform{}
+	t := &transition{transitionContext: &transitionContext{log: lg, plt: plt}}
 	ctx := &vhC10Ctx{tl: trace.NewLogger(lg, nil), wvs: &vhC10WVS{}}
 	l := &vhC10List{}
 	wg := new(sync.WaitGroup)
 	for i := 0; i < n; i++ {
-		l.txs = append(l.txs, &vhC10Tx{idx: i, wg: wg})
+		l.txs = append(l.txs, &vhC10Tx{idx: i, wg: wg, hookFails: sym.Bool("hook_fails_" + string([]byte{'0' + byte(i)}))})
 	}
+	plt.l = l
 	return t, ctx, l, make([]txresult.Receipt, n)
 }
 
